@@ -15,19 +15,19 @@ var c12Blocks = []absDay{
 	{Date: "2021/01/24", Entries: []absIng{{"u", 2}, {"k/r2", 0.5}}},
 	{Date: "2021/01/25", Entries: []absIng{{"k/r1", 2}, {"u", 1}}},
 	{Date: "2021/01/25", Entries: []absIng{{"u", 1}, {"k/r1", 2}}},
-	{Date: "2021/01/26"},
+	{Date: "2021/02/25"}, // (same day of the month as 01/25)
 	{Date: "2021/01/25", Entries: []absIng{{"k/r1", -1}, {"cal", -2}}},
 	{Date: "2021/01/24", Entries: []absIng{{"k/r1", 1}, {"u", 1}, {"k/r1", 0.5}}, Notes: []absNote{{"mood", "ok"}}},
-	{Date: "2021/01/27", Entries: []absIng{{"fish & chips <x> 'y'", 1}, {"k", 2}, {"k/", 1}, {"k//r1", 1}}, Notes: []absNote{{"", "50% done"}}},
+	{Date: "2020/01/25", Entries: []absIng{{"fish & chips <x> 'y'", 1}, {"k", 2}, {"k/", 1}, {"k//r1", 1}}, Notes: []absNote{{"", "50% done"}}},
 	c12BigBlock(),
 	// negative zeros: a negative quantity of a food with a zero coefficient, a zero quantity of a food with negative ones
 	// (the first number this day prints is a negative zero: a literal -0 quantity)
-	{Date: "2021/01/29", Entries: []absIng{{"u", math.Copysign(0, -1)}, {"k/r1", 0}, {"r0", -1}}},
+	{Date: "2021/01/01", Entries: []absIng{{"u", math.Copysign(0, -1)}, {"k/r1", 0}, {"r0", -1}}},
 }
 
 // c12BigBlock: a day of 70 entries (wide, with repeats) whose report alone exceeds the output buffer
 func c12BigBlock() absDay {
-	d := absDay{Date: "2021/01/28"}
+	d := absDay{Date: "2020/12/31"} // last day of a leap year: day 366, next to 2021/01/01 below
 	for j := 0; j < 70; j++ {
 		name := fmt.Sprintf("bulk/%02d", j%50)
 		if j%10 == 3 {
